@@ -163,3 +163,252 @@ UNITS["tilemap"] = {
          ]},
     ],
 }
+
+# ------------------------------------------------------------------------------------------------
+# Layer::is_visible (C09): == own flag && all ancestors' flags; terminates (parent id < child id)
+# ------------------------------------------------------------------------------------------------
+UNITS["visible"] = {
+    "prelude_sections": ["layer_flags", "forest"],
+    "items": [
+        {"kind": "struct", "file": "layer", "name": "LayerData", "keep": ["flags", "child_level"]},
+        {"kind": "struct", "file": "layer", "name": "LayersData", "keep": ["layers", "parents"]},
+        {"kind": "index_impl_check", "file": "layer", "type": "LayersData", "body": "{&self.layers[index as usize]}"},
+        {"kind": "struct", "file": "file", "name": "AsepriteFile", "keep": ["layers"]},
+        {"kind": "struct", "file": "layer", "name": "Layer", "keep": ["file", "layer_id"]},
+        {"kind": "fn", "file": "layer", "name": "is_visible", "impl_of": "Layer", "impl_header": "<'a> Layer<'a>", "ret": "r",
+         "requires": ("        parents_ok(self.file.layers.layers@, self.file.layers.parents@),\n"
+                      "        (self.layer_id as int) < self.file.layers.layers.len(),"),
+         "ensures": "        r == spec_visible(self.file.layers.layers@, self.file.layers.parents@, self.layer_id as int),",
+         "body_rewrites": [("self.file.layers[layer_id]", "self.file.layers.layers[layer_id as usize]")],
+         "loops": {1: ("            invariant\n"
+                       "                parents_ok(self.file.layers.layers@, self.file.layers.parents@),\n"
+                       "                (layer_id as int) < self.file.layers.layers.len(),\n"
+                       "                spec_visible(self.file.layers.layers@, self.file.layers.parents@, self.layer_id as int)\n"
+                       "                    == spec_visible(self.file.layers.layers@, self.file.layers.parents@, layer_id as int),\n"
+                       "            decreases layer_id,")},
+         },
+    ],
+}
+
+# ------------------------------------------------------------------------------------------------
+# Tilemap::tile / tile_offsets (C08 lookup incl. the empty-tile fallback, C05: no overflow for any u32 coordinate)
+# ------------------------------------------------------------------------------------------------
+UNITS["tilemap_lookup"] = {
+    "prelude_sections": ["arch", "tilemap_spec"],
+    "items": [
+        {"kind": "struct", "file": "tile", "name": "TileId", "keep": None, "attrs": "#[derive(Clone, Copy, PartialEq, Eq)]\n"},
+        {"kind": "struct", "file": "tile", "name": "Tile", "keep": None},
+        {"kind": "struct", "file": "tile", "name": "Tiles", "keep": None},
+        {"kind": "index_impl_check", "file": "tile", "type": "Tiles"},
+        {"kind": "struct", "file": "tilemap", "name": "TilemapData", "keep": ["width", "height", "tiles"], "rewrites": [("tile::Tiles", "Tiles")]},
+        {"kind": "struct", "file": "tileset", "name": "TileSize", "keep": None, "attrs": "#[derive(Clone, Copy)]\n"},
+        {"kind": "struct", "file": "tileset", "name": "Tileset", "keep": ["tile_size"], "header": "struct Tileset "},
+        {"kind": "struct", "file": "tilemap", "name": "Tilemap", "keep": ["tileset", "logical_size"]},
+        {"kind": "fn", "file": "tileset", "name": "width", "impl_of": "TileSize", "impl_filter": r"impl\s+TileSize", "ret": "r", "ensures": "        r == self.width,"},
+        {"kind": "fn", "file": "tileset", "name": "height", "impl_of": "TileSize", "impl_filter": r"impl\s+TileSize", "ret": "r", "ensures": "        r == self.height,"},
+        {"kind": "fn", "file": "tileset", "name": "tile_size", "impl_of": "Tileset", "impl_filter": r"impl<P>\s+Tileset<P>", "impl_header": "Tileset",
+         "ret": "r", "ensures": "        r == self.tile_size,"},
+        {"kind": "fn", "file": "tilemap", "name": "width", "impl_of": "TilemapData", "ret": "r", "ensures": "        r == self.width,"},
+        {"kind": "fn", "file": "tilemap", "name": "height", "impl_of": "TilemapData", "ret": "r", "ensures": "        r == self.height,"},
+        {"kind": "verbatim", "text": """
+/// the empty tile (src/tile.rs: `static EMPTY_TILE` with id 0; TRUSTED transcription of the static's value)
+pub exec static EMPTY_TILE: Tile
+    ensures EMPTY_TILE.id == TileId(0)
+{
+    Tile { id: TileId(0), flip_x: false, flip_y: false, rotate_90cw: false }
+}
+impl<'a> Tilemap<'a> {
+    /// the tilemap data of the cel this view was created for (reached through the cel table; abstract here)
+    pub uninterp spec fn spec_data(&self) -> &TilemapData;
+    /// the cel's top-left corner: i16 fields widened to i32 (Cel::top_left)
+    pub uninterp spec fn spec_px(&self) -> (i32, i32);
+    #[verifier::external_body]
+    fn tilemap(&self) -> (r: &TilemapData)
+        ensures r == self.spec_data(),
+    { unimplemented!() }
+    #[verifier::external_body]
+    pub fn pixel_offsets(&self) -> (r: (i32, i32))
+        ensures r == self.spec_px(), -32768 <= r.0 <= 32767, -32768 <= r.1 <= 32767,
+    { unimplemented!() }
+}
+/// C08: tile offsets = cel offset / tile size (Rust division: truncation toward zero)
+pub open spec fn trunc_div(a: int, b: int) -> int {
+    if a >= 0 { a / b } else { -((-a) / b) }
+}
+pub open spec fn spec_tile_offsets(tm: &Tilemap) -> (int, int) {
+    (trunc_div(tm.spec_px().0 as int, tm.tileset.tile_size.width as int), trunc_div(tm.spec_px().1 as int, tm.tileset.tile_size.height as int))
+}
+"""},
+        {"kind": "fn", "file": "tilemap", "name": "tileset", "impl_of": "Tilemap", "impl_header": "<'a> Tilemap<'a>", "ret": "r", "ensures": "        r == self.tileset,"},
+        {"kind": "fn", "file": "tilemap", "name": "tile_offsets", "impl_of": "Tilemap", "impl_header": "<'a> Tilemap<'a>", "ret": "r",
+         "requires": "        self.tileset.tile_size.width >= 1, self.tileset.tile_size.height >= 1,",
+         "ensures": "        r.0 as int == spec_tile_offsets(self).0, r.1 as int == spec_tile_offsets(self).1, -32768 <= r.0 <= 32767, -32768 <= r.1 <= 32767,"},
+        {"kind": "fn", "file": "tilemap", "name": "tile", "impl_of": "Tilemap", "impl_header": "<'a> Tilemap<'a>", "ret": "r",
+         "requires": ("        self.tileset.tile_size.width >= 1, self.tileset.tile_size.height >= 1,\n"
+                      "        tilemap_wf(self.spec_data()),"),
+         "ensures": ("        ({ let sx = x as int - spec_tile_offsets(self).0; let sy = y as int - spec_tile_offsets(self).1;\n"
+                     "           let d = self.spec_data();\n"
+                     "           if 0 <= sx < d.width as int && 0 <= sy < d.height as int { *r == d.tiles.0[sy * (d.width as int) + sx] } else { r.id == TileId(0) } }),"),
+         "body_rewrites": [("&self.tilemap().tiles[index]", "&self.tilemap().tiles.0[index]")],
+         "hints": [("let index =",
+                    "        assert((y as int) * (w as int) + (x as int) < (w as int) * (h as int)) by (nonlinear_arith)\n"
+                    "            requires 0 <= (x as int) < (w as int), 0 <= (y as int) < (h as int);\n"
+                    "        assert((y as int) * (w as int) <= 65535 * 65535) by (nonlinear_arith)\n"
+                    "            requires 0 <= (y as int) <= 65535, 0 <= (w as int) <= 65535;", "before")]},
+    ],
+}
+
+# ------------------------------------------------------------------------------------------------
+# The user-data attachment state machine of ParseInfo (C10) – every method under contract
+# ------------------------------------------------------------------------------------------------
+UD_FRAME = ("        final(self).layers@.len() == old(self).layers@.len(),\n")
+UNITS["userdata"] = {
+    "prelude_sections": ["errors", "rgba_only"],
+    "items": [
+        {"kind": "struct", "file": "user_data", "name": "UserData", "keep": None, "rewrites": [("image::Rgba<u8>", "Rgba<u8>")]},
+        {"kind": "struct", "file": "layer", "name": "LayerData", "keep": ["user_data"]},
+        {"kind": "struct", "file": "tags", "name": "Tag", "keep": ["user_data"]},
+        {"kind": "fn", "file": "tags", "name": "set_user_data", "impl_of": "Tag",
+         "ensures": "        final(self).user_data == Some(user_data),"},
+        {"kind": "struct", "file": "slice", "name": "Slice", "keep": ["user_data"]},
+        {"kind": "struct", "file": "cel", "name": "CelId", "keep": None, "attrs": "#[derive(Clone, Copy)]\n"},
+        {"kind": "struct", "file": "cel", "name": "CelCommon", "keep": None},
+        {"kind": "struct", "file": "cel", "name": "RawCel", "keep": ["data", "user_data"], "header": "struct RawCel "},
+        {"kind": "struct", "file": "cel", "name": "CelsData", "keep": ["data", "num_frames"], "header": "struct CelsData ",
+         "rewrites": [("RawCel<P>", "RawCel")]},
+        {"kind": "verbatim", "text": """
+impl CelsData {
+    /// the cel stored at (frame, layer), None if there is none (or the indices are outside the table)
+    pub open spec fn at(&self, f: int, l: int) -> Option<RawCel> {
+        if 0 <= f < self.data.len() && 0 <= l < self.data[f].len() { self.data[f][l] } else { None }
+    }
+    /// `add_cel` under its contract (the real function uses Vec::resize_with + closures; its contract is the
+    /// Kani obligation k_cels_table and is exercised by x_cel_order_irrelevant) - ASSUMED in this unit
+    #[verifier::external_body]
+    pub fn add_cel(&mut self, frame_id: u16, cel: RawCel) -> (r: Result<()>)
+        ensures
+            final(self).data.len() == old(self).data.len(),
+            r is Ok ==> (frame_id as int) < old(self).data.len()
+                && final(self).at(frame_id as int, cel.data.layer_index as int) == Some(cel)
+                && forall|f: int, l: int| !(f == frame_id && l == cel.data.layer_index) ==> #[trigger] final(self).at(f, l) == old(self).at(f, l),
+            r is Err ==> forall|f: int, l: int| #[trigger] final(self).at(f, l) == old(self).at(f, l),
+    { unimplemented!() }
+}
+"""},
+        {"kind": "fn", "file": "cel", "name": "cel_mut", "impl_of": "CelsData", "impl_filter": r"impl<P>\s+CelsData<P>", "impl_header": "CelsData", "ret": "r",
+         "sig_rewrites": [("RawCel<P>", "RawCel")],
+         "requires": "        (cel_id.frame as int) < old(self).data.len(),",
+         "ensures": ("        final(self).data.len() == old(self).data.len(),\n"
+                     "        match r {\n"
+                     "            Some(c) => old(self).at(cel_id.frame as int, cel_id.layer as int) == Some(*c)\n"
+                     "                && final(self).at(cel_id.frame as int, cel_id.layer as int) == Some(*final(c))\n"
+                     "                && forall|f: int, l: int| !(f == cel_id.frame && l == cel_id.layer) ==> #[trigger] final(self).at(f, l) == old(self).at(f, l),\n"
+                     "            None => old(self).at(cel_id.frame as int, cel_id.layer as int) is None && forall|f: int, l: int| #[trigger] final(self).at(f, l) == old(self).at(f, l),\n"
+                     "        },")},
+        {"kind": "enum", "file": "parse", "name": "UserDataContext", "attrs": "#[derive(Clone, Copy)]\n"},
+        {"kind": "struct", "file": "parse", "name": "ParseInfo", "keep": ["layers", "framedata", "tags", "sprite_user_data", "user_data_context", "slices"],
+         "rewrites": [("cel::CelsData<RawPixels>", "CelsData")]},
+        {"kind": "verbatim", "text": """
+/// ParseInfo invariant: a cel context always names an existing frame (established by add_cel)
+pub open spec fn ctx_wf(p: &ParseInfo) -> bool {
+    match p.user_data_context {
+        Some(UserDataContext::CelId(c)) => (c.frame as int) < p.framedata.data.len(),
+        _ => true,
+    }
+}
+pub open spec fn tags_same(a: Option<Vec<Tag>>, b: Option<Vec<Tag>>) -> bool {
+    (a is Some) == (b is Some) && (a is Some ==> a->0@ == b->0@)
+}
+pub open spec fn cels_same(a: &CelsData, b: &CelsData) -> bool {
+    forall|f: int, l: int| #[trigger] a.at(f, l) == b.at(f, l)
+}
+/// C10, the attachment rule: a user-data record goes to the entity named by the current context - and to
+/// nothing else (everything that is not that entity is unchanged); a tag context advances to the next tag.
+pub open spec fn attach_post(o: &ParseInfo, n: &ParseInfo, ctx: UserDataContext, ud: UserData, ok: bool) -> bool {
+    match ctx {
+        UserDataContext::LayerIndex(i) => {
+            &&& ok == ((i as int) < o.layers@.len())
+            &&& ok ==> n.layers@[i as int].user_data == Some(ud)
+            &&& forall|k: int| 0 <= k < o.layers@.len() && !(ok && k == i) ==> #[trigger] n.layers@[k] == o.layers@[k]
+            &&& n.slices@ == o.slices@ && tags_same(n.tags, o.tags) && n.sprite_user_data == o.sprite_user_data && cels_same(&n.framedata, &o.framedata)
+            &&& ok ==> n.user_data_context == o.user_data_context
+        },
+        UserDataContext::SliceIndex(i) => {
+            &&& ok == ((i as int) < o.slices@.len())
+            &&& ok ==> n.slices@[i as int].user_data == Some(ud)
+            &&& forall|k: int| 0 <= k < o.slices@.len() && !(ok && k == i) ==> #[trigger] n.slices@[k] == o.slices@[k]
+            &&& n.layers@ == o.layers@ && tags_same(n.tags, o.tags) && n.sprite_user_data == o.sprite_user_data && cels_same(&n.framedata, &o.framedata)
+            &&& ok ==> n.user_data_context == o.user_data_context
+        },
+        UserDataContext::OldPalette => {
+            &&& ok
+            &&& n.sprite_user_data == Some(ud)
+            &&& n.layers@ == o.layers@ && n.slices@ == o.slices@ && tags_same(n.tags, o.tags) && cels_same(&n.framedata, &o.framedata)
+            &&& n.user_data_context == o.user_data_context
+        },
+        UserDataContext::TagIndex(t) => {
+            &&& ok == (o.tags is Some && (t as int) < o.tags->0@.len())
+            &&& ok ==> n.tags is Some && n.tags->0@.len() == o.tags->0@.len() && n.tags->0@[t as int].user_data == Some(ud)
+                && (forall|k: int| 0 <= k < o.tags->0@.len() && k != t ==> #[trigger] n.tags->0@[k] == o.tags->0@[k])
+                && n.user_data_context == Some(UserDataContext::TagIndex((t + 1) as u16))
+            &&& !ok ==> tags_same(n.tags, o.tags)
+            &&& n.layers@ == o.layers@ && n.slices@ == o.slices@ && n.sprite_user_data == o.sprite_user_data && cels_same(&n.framedata, &o.framedata)
+        },
+        UserDataContext::CelId(c) => {
+            &&& ok == (o.framedata.at(c.frame as int, c.layer as int) is Some)
+            &&& ok ==> n.framedata.at(c.frame as int, c.layer as int) is Some
+                && n.framedata.at(c.frame as int, c.layer as int)->0.user_data == Some(ud)
+                && n.framedata.at(c.frame as int, c.layer as int)->0.data == o.framedata.at(c.frame as int, c.layer as int)->0.data
+            &&& forall|f: int, l: int| !(ok && f == c.frame && l == c.layer) ==> #[trigger] n.framedata.at(f, l) == o.framedata.at(f, l)
+            &&& n.layers@ == o.layers@ && n.slices@ == o.slices@ && tags_same(n.tags, o.tags) && n.sprite_user_data == o.sprite_user_data
+            &&& ok ==> n.user_data_context == o.user_data_context
+        },
+    }
+}
+"""},
+        {"kind": "fn", "file": "parse", "name": "add_layer", "impl_of": "ParseInfo",
+         "requires": "        old(self).layers@.len() < u32::MAX,",
+         "ensures": ("        final(self).layers@ == old(self).layers@.push(layer_data),\n"
+                     "        final(self).user_data_context == Some(UserDataContext::LayerIndex(old(self).layers@.len() as u32)),\n"
+                     "        final(self).tags == old(self).tags, final(self).slices@ == old(self).slices@, final(self).sprite_user_data == old(self).sprite_user_data,\n"
+                     "        final(self).framedata == old(self).framedata,")},
+        {"kind": "fn", "file": "parse", "name": "add_slice", "impl_of": "ParseInfo",
+         "requires": "        old(self).slices@.len() < u32::MAX,",
+         "ensures": ("        final(self).slices@ == old(self).slices@.push(slice),\n"
+                     "        final(self).user_data_context == Some(UserDataContext::SliceIndex(old(self).slices@.len() as u32)),\n"
+                     "        final(self).tags == old(self).tags, final(self).layers@ == old(self).layers@, final(self).sprite_user_data == old(self).sprite_user_data,\n"
+                     "        final(self).framedata == old(self).framedata,")},
+        {"kind": "fn", "file": "parse", "name": "add_tags", "impl_of": "ParseInfo",
+         "ensures": ("        final(self).tags == Some(tags),\n"
+                     "        final(self).user_data_context == Some(UserDataContext::TagIndex(0)),\n"
+                     "        final(self).slices@ == old(self).slices@, final(self).layers@ == old(self).layers@, final(self).sprite_user_data == old(self).sprite_user_data,\n"
+                     "        final(self).framedata == old(self).framedata,")},
+        {"kind": "fn", "file": "parse", "name": "add_cel", "impl_of": "ParseInfo", "ret": "r",
+         "sig_rewrites": [("cel::RawCel<RawPixels>", "RawCel")], "rules": ["R1", "R6", "R11"],
+         "ensures": ("        final(self).layers@ == old(self).layers@, final(self).tags == old(self).tags, final(self).slices@ == old(self).slices@,\n"
+                     "        final(self).sprite_user_data == old(self).sprite_user_data,\n"
+                     "        ctx_wf(old(self)) ==> ctx_wf(final(self)),\n"
+                     "        r is Ok ==> final(self).user_data_context == Some(UserDataContext::CelId(CelId { frame: frame_id, layer: cel.data.layer_index }))\n"
+                     "            && final(self).framedata.at(frame_id as int, cel.data.layer_index as int) == Some(cel),\n"
+                     "        r is Err ==> final(self).user_data_context == old(self).user_data_context,")},
+        {"kind": "fn", "file": "parse", "name": "set_tag_user_data", "impl_of": "ParseInfo", "ret": "r", "rules": ["R1", "R6", "R11"],
+         "requires": "        old(self).tags is Some ==> old(self).tags->0@.len() <= 65535,",
+         "ensures": ("        final(self).layers@ == old(self).layers@, final(self).slices@ == old(self).slices@, final(self).sprite_user_data == old(self).sprite_user_data,\n"
+                     "        final(self).framedata == old(self).framedata,\n"
+                     "        r is Ok <==> (old(self).tags is Some && (tag_index as int) < old(self).tags->0@.len()),\n"
+                     "        r is Ok ==> final(self).tags is Some && final(self).tags->0@.len() == old(self).tags->0@.len()\n"
+                     "            && final(self).tags->0@[tag_index as int].user_data == Some(user_data)\n"
+                     "            && (forall|k: int| 0 <= k < old(self).tags->0@.len() && k != tag_index ==> #[trigger] final(self).tags->0@[k] == old(self).tags->0@[k])\n"
+                     "            && final(self).user_data_context == Some(UserDataContext::TagIndex((tag_index + 1) as u16)),\n"
+                     "        r is Err ==> (final(self).tags is Some) == (old(self).tags is Some) && (old(self).tags is Some ==> final(self).tags->0@ == old(self).tags->0@)\n"
+                     "            && final(self).user_data_context == old(self).user_data_context,")},
+        {"kind": "fn", "file": "parse", "name": "add_user_data", "impl_of": "ParseInfo", "ret": "r", "rules": ["R1", "R6", "R11"],
+         "requires": ("        old(self).tags is Some ==> old(self).tags->0@.len() <= 65535,\n"
+                      "        ctx_wf(old(self)),"),
+         "ensures": ("        ctx_wf(final(self)),\n"
+                     "        old(self).user_data_context is None ==> r is Err,\n"
+                     "        final(self).layers@.len() == old(self).layers@.len(), final(self).slices@.len() == old(self).slices@.len(),\n"
+                     "        r is Err ==> final(self).user_data_context == old(self).user_data_context,\n"
+                     "        old(self).user_data_context is Some ==> attach_post(old(self), final(self), old(self).user_data_context->0, user_data, r is Ok),")},
+    ],
+}
